@@ -45,7 +45,8 @@ None   == 0
 VARIABLES store,    \* [Agents -> [Items -> [kind, v, m]]]
           ids,      \* [Agents -> Seq(Items)]: items in the order their identifier was first requested;
                     \*   the identifier of an item, up to renaming, is its position
-          hist,     \* ghost: [Agents -> [Items -> Seq(write)]] every write that took effect, in order
+          hist,     \* ghost: [n |-> number of writes, h |-> [Agents -> [Items -> Seq(write)]]]: every write that
+                    \*   took effect, per item, in order
           lastAct   \* the call just made: inputs and the outputs the implementation must produce
 
 vars == <<store, ids, hist, lastAct>>
@@ -56,7 +57,7 @@ EmptyItem == [kind |-> "E", v |-> None, m |-> EmptyMap]
 
 Init == /\ store = [a \in Agents |-> [i \in Items |-> EmptyItem]]
         /\ ids = [a \in Agents |-> <<>>]
-        /\ hist = [a \in Agents |-> [i \in Items |-> <<>>]]
+        /\ hist = [n |-> 0, h |-> [a \in Agents |-> [i \in Items |-> <<>>]]]
         /\ lastAct = [k |-> "init"]
 
 -----------------------------------------------------------------------------
@@ -69,7 +70,7 @@ ValueOK(a, i) == store[a][i].kind \in {"E", "V"}
 MapOK(a, i)   == store[a][i].kind \in {"E", "M"}
 
 W(k, key, v) == [k |-> k, key |-> key, v |-> v]
-Log(a, i, w) == hist' = IF MaxHist > 0 THEN [hist EXCEPT ![a][i] = Append(@, w)] ELSE hist
+Log(a, i, w) == hist' = IF MaxHist > 0 THEN [n |-> hist.n + 1, h |-> [hist.h EXCEPT ![a][i] = Append(@, w)]] ELSE hist
 
 (* effects (what the operation does to the store), separated from the acknowledgement so that
    Crash can reuse them *)
@@ -185,16 +186,26 @@ LastEntry(h, key) == LET J == {j \in DOMAIN h : h[j].k = "clear" \/ (h[j].k \in 
                      IF J = {} THEN None ELSE IF h[MaxOf(J)].k = "update" THEN h[MaxOf(J)].v ELSE None
 ReadImplied ==
     MaxHist > 0 =>
-      /\ \A a \in Agents, i \in Items :
-            /\ store[a][i].v = LastValue(hist[a][i])
-            /\ \A key \in Keys : store[a][i].m[key] = LastEntry(hist[a][i], key)
-      /\ lastAct.k = "get" => lastAct.val = LastValue(hist[lastAct.a][lastAct.i])
-      /\ lastAct.k = "read" => \A key \in Keys : lastAct.m[key] = LastEntry(hist[lastAct.a][lastAct.i], key)
-(* the identifier a call reports is the one the item already had, or one no other item of the agent has *)
-IdReported == lastAct.k \in ItemCalls => ids[lastAct.a][lastAct.id] = lastAct.i
+      \A a \in Agents, i \in Items :
+            /\ store[a][i].v = LastValue(hist.h[a][i])
+            /\ \A key \in Keys : store[a][i].m[key] = LastEntry(hist.h[a][i], key)
+(* ... and the results handed back by the calls are those (action properties: evaluated on every
+   transition, so they stay exact under a VIEW that hides lastAct) *)
+ReadResult == [][MaxHist > 0 =>
+                   /\ lastAct'.k = "get" => lastAct'.val = LastValue(hist.h[lastAct'.a][lastAct'.i])
+                   /\ lastAct'.k = "read" => \A key \in Keys :
+                          lastAct'.m[key] = LastEntry(hist.h[lastAct'.a][lastAct'.i], key)]_vars
+(* the identifier a call reports is the one the item already had, or one no other item of the agent has,
+   and it is the item's identifier from then on *)
+IdReported == [][lastAct'.k \in ItemCalls =>
+                   /\ ids'[lastAct'.a][lastAct'.id] = lastAct'.i
+                   /\ \A j \in Items : (j # lastAct'.i /\ Pos(ids[lastAct'.a], j) # 0) => Pos(ids[lastAct'.a], j) # lastAct'.id]_vars
+(* every call on an item is acknowledged with success *)
+AllOk == [][lastAct'.k # "crash" => lastAct'.r = "ok"]_vars
 
-RECURSIVE SumLen(_)
-SumLen(S) == IF S = {} THEN 0 ELSE LET x == CHOOSE x \in S : TRUE IN Len(hist[x[1]][x[2]]) + SumLen(S \ {x})
-HistBound == MaxHist > 0 => SumLen(Agents \X Items) <= MaxHist
+HView == <<store, ids, hist>>
+
+(* state constraint for the configurations that carry the ghost history *)
+HistBound == hist.n <= MaxHist
 
 =============================================================================
